@@ -237,6 +237,17 @@ def svh_corpus(tier):
         yield ("svh", ((2, 5, 7, 11), ((2, 5), (7, 11)), (w0, w0), 3, False))
         yield ("svh", ((2, 5, 7, 11, 13, 17), ((2, 5), (7, 11), (13, 17)), (w0, w0, w0), 3, False))
         yield ("svh", ((2, 5, 7, 11, 13, 17), ((2, 5, 7), (11, 13, 17)), (w0, w0), 3, False))
+    # two sizes at once: k disjoint heavy pairs (validated) next to m disjoint triples of moderate weight (p-values between the
+    # triples' own levels and the pairs' threshold): each size has to be judged by the threshold computed from ITS p-values
+    P = (2, 3, 5, 7, 11, 13, 17, 19, 23, 29, 31, 37, 41, 43, 47, 53, 59)
+    for k in (2, 3, 4):
+        for m in (2, 3):
+            pairs = tuple((P[2 * i], P[2 * i + 1]) for i in range(k))
+            triples = tuple((P[2 * k + 3 * j], P[2 * k + 3 * j + 1], P[2 * k + 3 * j + 2]) for j in range(m))
+            for w2 in (6, 8, 10, 12):
+                for w3 in (2, 3, 4, 5, 6):
+                    yield ("svh", (P, pairs + triples, (w2,) * k + (w3,) * m, 3, False))
+                    yield ("svh", (P, triples + pairs, (w3,) * m + (w2,) * k, 4, False))
     # second call on the same object after a weight change
     for es in itertools.combinations(cands[:6], 2):
         for ws in ((1, 1), (2, 3), (3, 1)):
